@@ -250,6 +250,14 @@ func (m stateMachine) Depth() int {
 	return len(m.Stack) + 1
 }
 
+// AtMaxDepth reports whether the maximum nesting depth has been reached
+// such that pushObject or pushArray would fail.
+// It must be checked by code that appends an entire JSON object or array
+// without going through those methods.
+func (m stateMachine) AtMaxDepth() bool {
+	return len(m.Stack) == maxNestingDepth
+}
+
 // index returns a reference to the ith entry.
 // It is only valid until the next push method call.
 func (m *stateMachine) index(i int) *stateEntry {
